@@ -3,7 +3,10 @@ package main
 import (
 	"fmt"
 	"go/ast"
+	"go/parser"
 	"go/token"
+	"os"
+	"path/filepath"
 	"sort"
 	"strings"
 )
@@ -15,6 +18,7 @@ func factGenFiles() []genFile {
 		{"CborConsts", genCborConsts},
 		{"FsstoreFacts", genFsstoreFacts},
 		{"WalkFacts", genWalkFacts},
+		{"GlobalWrites", genGlobalWrites},
 	}
 }
 
@@ -379,5 +383,147 @@ func genWalkFacts(repo string) string {
 		lean := strings.ReplaceAll(strings.ReplaceAll(fn.name, "Progress.", ""), ".", "_")
 		fmt.Fprintf(&sb, "/-- generated from traversal/walk.go `%s`: the budget test and the decrement, in source order -/\ndef %s_src : List String := %s\n\n", fn.name, lean, leanStrList(shape))
 	}
+	return sb.String()
+}
+
+// ---------------------------------------------------------------------------------------------
+// package-level variables and the non-init functions that write them (C19, C20)
+
+func rootIdent(e ast.Expr) string {
+	switch x := e.(type) {
+	case *ast.Ident:
+		return x.Name
+	case *ast.SelectorExpr:
+		return rootIdent(x.X)
+	case *ast.IndexExpr:
+		return rootIdent(x.X)
+	case *ast.StarExpr:
+		return rootIdent(x.X)
+	case *ast.ParenExpr:
+		return rootIdent(x.X)
+	}
+	return ""
+}
+
+func genGlobalWrites(repo string) string {
+	pkgs := []string{"node/bindnode", "schema", "multicodec", "traversal", "traversal/selector", "linking", "linking/cid", "node/basicnode", "datamodel", "codec/dagcbor", "codec/dagjson", "storage/memstore"}
+	var sb strings.Builder
+	sb.WriteString("/-- generated: per anchored package, every package-level variable that some function other than `init` writes\n    (an assignment rooted at it, `&v` taken, or a method called on it whose name suggests mutation), with those functions -/\ndef globalWrites_src : List (String × String × List String) := [\n")
+	var rows []string
+	for _, pkg := range pkgs {
+		dir := filepath.Join(repo, pkg)
+		ents, err := os.ReadDir(dir)
+		if err != nil {
+			panic(failure{"cannot read " + dir})
+		}
+		fset := token.NewFileSet()
+		var files []*ast.File
+		for _, e := range ents {
+			if e.IsDir() || !strings.HasSuffix(e.Name(), ".go") || strings.HasSuffix(e.Name(), "_test.go") {
+				continue
+			}
+			f, err := parser.ParseFile(fset, filepath.Join(dir, e.Name()), nil, 0)
+			if err != nil {
+				panic(failure{fmt.Sprintf("cannot parse %s/%s: %v", pkg, e.Name(), err)})
+			}
+			files = append(files, f)
+		}
+		globals := map[string]bool{}
+		for _, f := range files {
+			for _, d := range f.Decls {
+				if gd, ok := d.(*ast.GenDecl); ok && gd.Tok == token.VAR {
+					for _, sp := range gd.Specs {
+						for _, nm := range sp.(*ast.ValueSpec).Names {
+							if nm.Name != "_" {
+								globals[nm.Name] = true
+							}
+						}
+					}
+				}
+			}
+		}
+		writers := map[string]map[string]bool{}
+		note := func(g, fn string) {
+			if writers[g] == nil {
+				writers[g] = map[string]bool{}
+			}
+			writers[g][fn] = true
+		}
+		mutators := map[string]bool{"Accumulate": true, "Init": true, "RegisterEncoder": true, "RegisterDecoder": true, "Store": true, "Set": true, "Add": true, "Delete": true, "Reset": true, "Lock": false}
+		for _, f := range files {
+			for _, d := range f.Decls {
+				fd, ok := d.(*ast.FuncDecl)
+				if !ok || fd.Body == nil || fd.Name.Name == "init" {
+					continue
+				}
+				fname := fd.Name.Name
+				// locals shadowing globals: parameters and := definitions
+				shadow := map[string]bool{}
+				if fd.Type.Params != nil {
+					for _, p := range fd.Type.Params.List {
+						for _, nm := range p.Names {
+							shadow[nm.Name] = true
+						}
+					}
+				}
+				if fd.Recv != nil {
+					for _, p := range fd.Recv.List {
+						for _, nm := range p.Names {
+							shadow[nm.Name] = true
+						}
+					}
+				}
+				ast.Inspect(fd.Body, func(n ast.Node) bool {
+					switch x := n.(type) {
+					case *ast.AssignStmt:
+						for _, l := range x.Lhs {
+							if x.Tok == token.DEFINE {
+								if id, ok := l.(*ast.Ident); ok {
+									shadow[id.Name] = true
+								}
+								continue
+							}
+							if g := rootIdent(l); globals[g] && !shadow[g] {
+								note(g, fname)
+							}
+						}
+					case *ast.IncDecStmt:
+						if g := rootIdent(x.X); globals[g] && !shadow[g] {
+							note(g, fname)
+						}
+					case *ast.CallExpr:
+						if se, ok := x.Fun.(*ast.SelectorExpr); ok && mutators[se.Sel.Name] {
+							if g := rootIdent(se.X); globals[g] && !shadow[g] {
+								note(g, fname)
+							}
+						}
+						for _, a := range x.Args {
+							if ue, ok := a.(*ast.UnaryExpr); ok && ue.Op == token.AND {
+								if g := rootIdent(ue.X); globals[g] && !shadow[g] {
+									note(g, fname+"(&)")
+								}
+							}
+						}
+					}
+					return true
+				})
+			}
+		}
+		var gs []string
+		for g := range writers {
+			gs = append(gs, g)
+		}
+		sort.Strings(gs)
+		for _, g := range gs {
+			var fs []string
+			for f := range writers[g] {
+				fs = append(fs, f)
+			}
+			sort.Strings(fs)
+			rows = append(rows, fmt.Sprintf("  (%q, %q, %s)", pkg, g, leanStrList(fs)))
+		}
+	}
+	sb.WriteString(strings.Join(rows, ",\n"))
+	sb.WriteString("\n]\n")
 	return sb.String()
 }
